@@ -1,18 +1,23 @@
 // c16: acknowledged writes survive eviction, auto-destroy and shutdown — correspondence check
-// against Conc/Lifecycle.v.
+// against Conc/Lifecycle.v (whole lifecycle, witnesses) and Conc/Buffer.v (write buffer).
 //
-// Every case is one swamp of a real in-process engine (persistent V2 swamps, gateway calls):
-//   - forced witnesses (model -> impl): the two refutation schedules of Conc/Lifecycle.v are
-//     forced through the lifecycle hook points (auto-destroy decision vs. a concurrent insert;
-//     idle-close check with a stale lastInteractionTime vs. a request between SummonSwamp and
-//     BeginVigil), in the immediate-write and the interval-write configuration;
-//   - serial cases: random request sequences (set / delete / delete-last / destroy) with idle
-//     closes and write ticks between the requests (the hypothesis of the partial theorem);
-//   - stress: writers and deleters on a few swamps with 1 s idle close.
-// After all cases the engine is stopped gracefully and a fresh engine is started on the same
-// root; the reloaded key set of every swamp is compared (in Coq) with the acknowledged
-// operations: every acknowledged write that is not followed by an acknowledged remove of the
-// key must be present. For forced and serial cases the model also predicts the reloaded set.
+// Every case is one persistent V2 swamp of a real in-process engine driven through the gateway.
+// Every write carries a fresh value, so a lost UPDATE is as visible as a lost insert.
+//   - forced (one shared schedule controller, all scenarios in parallel):
+//       witnesses    the two refutation schedules of Conc/Lifecycle.v (known findings);
+//       flush window a Save / Delete sequence is acknowledged while a flush (write tick or the
+//                    write-through of an immediate-write Save) is parked before collecting,
+//                    after dequeuing (entry of chronicler.Write) or after writing its batch; the hook events and the queue
+//                    length after every step are replayed by Conc/Buffer.v (trace acceptance)
+//                    and the model predicts the reloaded content;
+//       teardown     a Set arrives while Destroy / auto-destroy / idle Close of the previous
+//                    instance is parked between the context cancel and the close callback
+//                    (close event arriving late), then another Set;
+//   - serial: random request sequences without / with an idle close in the middle;
+//   - stress: writers and deleters with idle closes and auto-destroys; a lost write is
+//     classified from the hook log (which lifecycle decision overlapped the request).
+// After all cases: GracefulStop, fresh engine on the same root, and for every swamp the reloaded
+// key -> value map is compared (in Coq) with the acknowledged operations.
 package main
 
 import (
@@ -22,9 +27,11 @@ import (
 	"sort"
 	"strings"
 	"sync"
+	"sync/atomic"
 	"time"
 
 	"github.com/hydraide/hydraide/app/core/hydra"
+	"github.com/hydraide/hydraide/app/core/hydra/swamp"
 	"github.com/hydraide/hydraide/app/verifhook"
 	hydrapb "github.com/hydraide/hydraide/sdk/go/hydraidego/v3/hydraidepbgo"
 	"verif/harness/common"
@@ -35,224 +42,569 @@ import (
 type ack struct {
 	Del bool
 	Key int
+	Val int64
 }
 
 type caseRec struct {
 	kind    string
 	name    string
-	wi      int // write interval seconds of the pattern
+	wi      int
 	acks    []ack
-	flags   int // 1 = auto-destroy decision overlapped an insert; 2 = idle close between summon and vigil
+	flags   int // forced/observed race: 1 auto-destroy decision vs insert, 2 idle close between summon and vigil
+	model   int // Conc/Lifecycle.v witness selector
 	script  []string
-	modelOp []string // Coq ops for the model replay (forced/serial cases)
+	bprogs  []string // Conc/Buffer.v thread programs (Pb ...)
+	btrace  []string // observed flush-window trace (Ob ...)
 	nontriv bool
+	hung    string
 }
 
 type env struct {
-	srv *rig.Server
+	srv  *rig.Server
+	ctl  *lib.Ctl
+	tids int64
 }
+
+func (e *env) tid() int { return int(atomic.AddInt64(&e.tids, 1)) }
 
 func key(k int) string { return fmt.Sprintf("k%d", k) }
 
-func (e *env) set(ctx context.Context, name string, k int) (string, error) {
-	v := int64(k + 1)
-	resp, err := e.srv.GW.Set(ctx, &hydrapb.SetRequest{Swamps: []*hydrapb.SwampRequest{{
+func (e *env) set(name string, k int, v int64) string {
+	resp, err := e.srv.GW.Set(context.Background(), &hydrapb.SetRequest{Swamps: []*hydrapb.SwampRequest{{
 		IslandID: 1, SwampName: name, CreateIfNotExist: true, Overwrite: true,
 		KeyValues: []*hydrapb.KeyValuePair{{Key: key(k), Int64Val: &v}}}}})
 	if err != nil || resp == nil || len(resp.Swamps) == 0 || len(resp.Swamps[0].KeysAndStatuses) == 0 {
-		return "", fmt.Errorf("set failed: %v", err)
+		return ""
 	}
-	return resp.Swamps[0].KeysAndStatuses[0].Status.String(), nil
+	return resp.Swamps[0].KeysAndStatuses[0].Status.String()
 }
 
-func (e *env) del(ctx context.Context, name string, k int) (string, error) {
-	resp, err := e.srv.GW.Delete(ctx, &hydrapb.DeleteRequest{Swamps: []*hydrapb.DeleteRequest_SwampKeys{{
+func okSet(st string) bool { return st == "NEW" || st == "UPDATED" }
+
+func (e *env) del(name string, k int) string {
+	resp, err := e.srv.GW.Delete(context.Background(), &hydrapb.DeleteRequest{Swamps: []*hydrapb.DeleteRequest_SwampKeys{{
 		IslandID: 1, SwampName: name, Keys: []string{key(k)}}}})
 	if err != nil || resp == nil || len(resp.Responses) == 0 {
-		return "", fmt.Errorf("delete failed: %v", err)
+		return ""
 	}
 	r := resp.Responses[0]
 	if r.ErrorCode != nil || len(r.KeyStatuses) == 0 {
-		return "NOSWAMP", nil
+		return "NOSWAMP"
 	}
-	return r.KeyStatuses[0].Status.String(), nil
+	return r.KeyStatuses[0].Status.String()
 }
 
-func (e *env) destroy(ctx context.Context, name string) error {
-	_, err := e.srv.GW.Destroy(ctx, &hydrapb.DestroyRequest{IslandID: 1, SwampName: name})
-	return err
+func (e *env) destroy(name string) {
+	e.srv.GW.Destroy(context.Background(), &hydrapb.DestroyRequest{IslandID: 1, SwampName: name})
 }
 
-// reload returns which of the keys 0..n-1 exist in the swamp (fresh engine).
-func (e *env) reload(name string, n int) []int {
-	var out []int
+const nkeys = 16
+
+// reload: key -> value of the swamp on the fresh engine
+func (e *env) reload(name string) map[int]int64 {
+	out := map[int]int64{}
 	ex, err := e.srv.GW.IsSwampExist(context.Background(), &hydrapb.IsSwampExistRequest{IslandID: 1, SwampName: name})
 	if err != nil || ex == nil || !ex.IsExist {
 		return out
 	}
-	keys := make([]string, n)
+	keys := make([]string, nkeys)
 	for i := range keys {
 		keys[i] = key(i)
 	}
-	resp, err := e.srv.GW.AreKeysExist(context.Background(), &hydrapb.AreKeysExistRequest{IslandID: 1, SwampName: name, Keys: keys})
-	if err != nil || resp == nil {
+	resp, err := e.srv.GW.Get(context.Background(), &hydrapb.GetRequest{Swamps: []*hydrapb.GetSwamp{{IslandID: 1, SwampName: name, Keys: keys}}})
+	if err != nil || resp == nil || len(resp.Swamps) == 0 {
 		return out
 	}
-	for ks, ex := range resp.Results {
-		if ex {
+	for _, t := range resp.Swamps[0].Treasures {
+		if t.IsExist && t.Int64Val != nil {
 			var k int
-			fmt.Sscanf(ks, "k%d", &k)
-			out = append(out, k)
+			fmt.Sscanf(t.Key, "k%d", &k)
+			out[k] = *t.Int64Val
 		}
 	}
-	sort.Ints(out)
 	return out
 }
 
-func (e *env) instID(name string) int64 {
-	o := hydra.VerifMapEntry(e.srv.Zeus.GetHydra(), rig.Name(name).Get())
-	if o == nil {
-		return 0
-	}
-	return verifhook.ID(o)
+func (e *env) inst(name string) swamp.Swamp {
+	return hydra.VerifMapEntry(e.srv.Zeus.GetHydra(), rig.Name(name).Get())
 }
 
-const settle = 300 * time.Millisecond
+func (e *env) instID(name string) int64 {
+	if o := e.inst(name); o != nil {
+		return verifhook.ID(o)
+	}
+	return 0
+}
 
-// witness (i): W1 deletes the last record and decides to auto-destroy while W2 inserts.
+const stepTO = 2 * time.Second
+
+// runToEnd steps a thread through every park site until it finishes (false = it did not).
+func (e *env) runToEnd(tid int, timeout time.Duration) bool {
+	deadline := time.Now().Add(timeout)
+	for time.Now().Before(deadline) {
+		switch e.ctl.WaitThread(tid, 20*time.Millisecond) {
+		case lib.Finished:
+			return true
+		case lib.Parked:
+			e.ctl.StepThread(tid, 20*time.Millisecond)
+		}
+	}
+	return false
+}
+
+// runUntil steps a thread until it is parked at site (true) or finished / timed out (false).
+func (e *env) runUntil(tid int, site string, timeout time.Duration) bool {
+	deadline := time.Now().Add(timeout)
+	for time.Now().Before(deadline) {
+		st := e.ctl.WaitThread(tid, 20*time.Millisecond)
+		if st == lib.Finished {
+			return false
+		}
+		if st == lib.Parked {
+			if _, s, _ := e.ctl.State(tid); s == site {
+				return true
+			}
+			e.ctl.StepThread(tid, 20*time.Millisecond)
+		}
+	}
+	return false
+}
+
+// waitParked waits until an (adopted) thread exists and is parked.
+func (e *env) waitParked(tid int, timeout time.Duration) (bool, string) {
+	deadline := time.Now().Add(timeout)
+	for time.Now().Before(deadline) {
+		if st, s, _ := e.ctl.State(tid); st == lib.Parked {
+			return true, s
+		}
+		time.Sleep(200 * time.Microsecond)
+	}
+	return false, ""
+}
+
+// ---- witnesses of Conc/Lifecycle.v -------------------------------------------------------------
+
 func (e *env) witnessAutoDestroy(name string, wi int) caseRec {
-	c := caseRec{kind: "witness_autodestroy", name: name, wi: wi, flags: 1, nontriv: true}
-	ctx := context.Background()
-	st, _ := e.set(ctx, name, 0)
-	c.script = append(c.script, "set k0 -> "+st)
-	c.acks = append(c.acks, ack{false, 0})
+	c := caseRec{kind: "witness_autodestroy", name: name, wi: wi, flags: 1, nontriv: true, model: 1 + wi}
+	t0, t1, t2 := e.tid(), e.tid(), e.tid()
+	var st string
+	e.ctl.Spawn(t0, func() { st = e.set(name, 0, 1) })
+	e.runToEnd(t0, stepTO)
+	c.script = append(c.script, "set k0=1 -> "+st)
+	c.acks = append(c.acks, ack{false, 0, 1})
 	if wi > 0 {
-		time.Sleep(time.Duration(wi)*time.Second + 300*time.Millisecond) // let the write ticker flush k0
+		time.Sleep(time.Duration(wi)*time.Second + 300*time.Millisecond)
 	}
-	ctl := lib.New()
-	ctl.Park["swamp.autodestroy"] = true
-	ctl.Install()
-	var dst string
-	ctl.Spawn(1, func() { dst, _ = e.del(ctx, name, 0) })
-	ctl.Settle(settle)
-	s1, site, _ := ctl.State(1)
-	c.script = append(c.script, fmt.Sprintf("delete k0 parked=%v at %s", s1 == lib.Parked, site))
-	var sst string
-	ctl.Spawn(2, func() { sst, _ = e.set(ctx, name, 1) })
-	ctl.Settle(settle)
-	s2, _, _ := ctl.State(2)
-	c.script = append(c.script, fmt.Sprintf("set k1 finished=%v -> %s", s2 == lib.Finished, sst))
-	ctl.Step(1, 2*time.Second)
-	s1, _, _ = ctl.State(1)
-	c.script = append(c.script, fmt.Sprintf("delete released finished=%v -> %s", s1 == lib.Finished, dst))
-	ctl.Uninstall()
+	var dst, sst string
+	e.ctl.Spawn(t1, func() { dst = e.del(name, 0) })
+	parked := e.runUntil(t1, "swamp.autodestroy", stepTO)
+	c.script = append(c.script, fmt.Sprintf("delete k0 parked at the auto-destroy decision=%v", parked))
+	e.ctl.Spawn(t2, func() { sst = e.set(name, 1, 2) })
+	fin := e.runToEnd(t2, stepTO)
+	c.script = append(c.script, fmt.Sprintf("set k1=2 finished=%v -> %s", fin, sst))
+	e.runToEnd(t1, 3*time.Second)
+	c.script = append(c.script, "delete released -> "+dst)
 	if dst == "DELETED" {
-		c.acks = append(c.acks, ack{true, 0})
+		c.acks = append(c.acks, ack{true, 0, 0})
 	}
-	if s2 == lib.Finished && (sst == "NEW" || sst == "UPDATED") {
-		c.acks = append(c.acks, ack{false, 1})
+	if fin && okSet(sst) {
+		c.acks = append(c.acks, ack{false, 1, 2})
 	}
-	c.modelOp = []string{"witness_i"}
+	if !parked {
+		c.flags, c.model = 0, 0
+	}
 	return c
 }
 
-// witness (ii): the idle listener read lastInteractionTime, a Set summons the swamp (refresh),
-// the listener passes its checks with the stale value and closes; the Set then writes into the
-// closed instance.
 func (e *env) witnessIdleClose(name string, wi int) caseRec {
-	c := caseRec{kind: "witness_idleclose", name: name, wi: wi, flags: 2, nontriv: true}
-	ctx := context.Background()
-	st, _ := e.set(ctx, name, 0)
-	c.script = append(c.script, "set k0 -> "+st)
-	c.acks = append(c.acks, ack{false, 0})
+	c := caseRec{kind: "witness_idleclose", name: name, wi: wi, flags: 2, nontriv: true, model: 3 + wi}
+	t0, tl, t2 := e.tid(), e.tid(), e.tid()
+	var st string
+	e.ctl.Spawn(t0, func() { st = e.set(name, 0, 1) })
+	e.runToEnd(t0, stepTO)
+	c.script = append(c.script, "set k0=1 -> "+st)
+	c.acks = append(c.acks, ack{false, 0, 1})
 	id := e.instID(name)
 	// place the last interaction half a second after the start of the listener's 1 s ticker, so
 	// that the ticks are far away from the idle threshold (1 s idle + 1 s gap): 1.5 s / 2.5 s
 	time.Sleep(500 * time.Millisecond)
-	e.set(ctx, name, 0)
+	t0b := e.tid()
+	e.ctl.Spawn(t0b, func() { e.set(name, 0, 2) })
+	e.runToEnd(t0b, stepTO)
+	c.acks = append(c.acks, ack{false, 0, 2})
 	last := time.Now()
-	ctl := lib.New()
-	ctl.Park["swamp.idle.read"] = true
-	ctl.Park["gateway.set.summoned"] = true
-	ctl.Adopt("swamp.idle.read", func(a []int64) bool { return len(a) > 0 && a[0] == id }, 9)
-	ctl.Foreign = os.Getenv("C16_DEBUG") != ""
-	ctl.Install()
-	// let the listener tick until the tick at which the idle condition holds
+	e.ctl.Adopt("swamp.idle.read", func(a []int64) bool { return len(a) > 0 && a[0] == id }, tl)
 	deadline := time.Now().Add(8 * time.Second)
 	ok := false
 	for time.Now().Before(deadline) {
-		s9, _, _ := ctl.State(9)
-		if s9 == lib.Parked {
+		if s, _, _ := e.ctl.State(tl); s == lib.Parked {
 			if time.Since(last) > 2150*time.Millisecond {
 				ok = true
 				break
 			}
-			ctl.Step(9, 10*time.Millisecond)
+			e.ctl.StepThread(tl, 5*time.Millisecond)
 		}
-		time.Sleep(5 * time.Millisecond)
+		time.Sleep(2 * time.Millisecond)
 	}
-	c.script = append(c.script, fmt.Sprintf("listener parked after stale read=%v idle=%v", ok, time.Since(last).Round(time.Millisecond)))
-	if os.Getenv("C16_DEBUG") != "" {
-		for _, ev := range ctl.Log() {
-			c.script = append(c.script, fmt.Sprintf("   ev t%d %s %v", ev.Tid, ev.Site, ev.Args))
-		}
-	}
+	c.script = append(c.script, fmt.Sprintf("listener parked after its read=%v idle=%v", ok, time.Since(last).Round(time.Millisecond)))
 	var sst string
-	ctl.Spawn(2, func() { sst, _ = e.set(ctx, name, 1) })
-	ctl.Settle(settle)
-	s2, site, _ := ctl.State(2)
-	c.script = append(c.script, fmt.Sprintf("set k1 parked=%v at %s", s2 == lib.Parked, site))
-	// the listener continues: lock, checks, Close
-	n := ctl.LogLen()
-	ctl.Step(9, settle)
-	time.Sleep(50 * time.Millisecond)
+	e.ctl.Spawn(t2, func() { sst = e.set(name, 1, 3) })
+	p2 := e.runUntil(t2, "gateway.set.summoned", stepTO)
+	c.script = append(c.script, fmt.Sprintf("set k1=3 parked between SummonSwamp and BeginVigil=%v", p2))
+	// the listener continues: lock, checks, Close (it parks at the close callback and is stepped through)
 	closed := false
-	for _, ev := range ctl.Log()[n:] {
-		if ev.Site == "swamp.idle.close" {
-			closed = true
+	if ok {
+		closed = e.runUntil(tl, "swamp.callback", stepTO)
+		if closed {
+			e.ctl.StepThread(tl, 100*time.Millisecond)
+			time.Sleep(20 * time.Millisecond)
 		}
 	}
-	c.script = append(c.script, fmt.Sprintf("listener closed the instance=%v map entry now=%d (was %d)", closed, e.instID(name), id))
-	ctl.Step(2, 2*time.Second)
-	s2, _, _ = ctl.State(2)
-	c.script = append(c.script, fmt.Sprintf("set k1 finished=%v -> %s", s2 == lib.Finished, sst))
-	ctl.Uninstall()
-	if s2 == lib.Finished && (sst == "NEW" || sst == "UPDATED") {
-		c.acks = append(c.acks, ack{false, 1})
+	c.script = append(c.script, fmt.Sprintf("listener closed the instance=%v, instance in map now=%d (was %d)", closed, e.instID(name), id))
+	fin := e.runToEnd(t2, stepTO)
+	c.script = append(c.script, fmt.Sprintf("set k1 finished=%v -> %s", fin, sst))
+	if fin && okSet(sst) {
+		c.acks = append(c.acks, ack{false, 1, 3})
 	}
-	if !closed {
-		c.flags = 0
+	if !closed || !p2 {
+		c.flags, c.model = 0, 0
 	}
-	c.modelOp = []string{"witness_ii"}
 	return c
 }
 
-// serial: requests one after the other on one swamp (no lifecycle step inside a request)
+// ---- flush window: trace acceptance against Conc/Buffer.v ---------------------------------------
+
+type opSpec struct {
+	Del bool
+	K   int
+}
+
+func (o opSpec) String() string {
+	if o.Del {
+		return fmt.Sprintf("delete k%d", o.K)
+	}
+	return fmt.Sprintf("set k%d", o.K)
+}
+
+// park sites inside a flush and the observation kind they stand for (7 = before the collect: no model step)
+var flushSites = map[string]int{"swamp.flush.begin": 7, "chronicler.write.begin": 5, "swamp.flush.wrote": 3}
+
+func (e *env) flushWindow(name string, wi int, park string, ops, post []opSpec) caseRec {
+	c := caseRec{kind: "flush_window", name: name, wi: wi, nontriv: true}
+	th := 0
+	if wi == 0 {
+		th = 1
+	}
+	var obj swamp.Swamp
+	var val int64
+	mtid := 0 // model thread number
+	qlen := func() int {
+		if obj == nil {
+			return 1000
+		}
+		return obj.CountTreasuresWaitingForWriter()
+	}
+	ob := func(t, kind, a int) {
+		c.btrace = append(c.btrace, fmt.Sprintf("(Buffer.Ob %d %d %d %d)", t, kind, a, qlen()))
+	}
+	// advance steps a thread through park sites that are not flush sites; it returns when the thread
+	// is parked at a flush site or has finished
+	advance := func(tid int) int {
+		deadline := time.Now().Add(stepTO)
+		for time.Now().Before(deadline) {
+			st := e.ctl.WaitThread(tid, 20*time.Millisecond)
+			if st == lib.Finished {
+				return st
+			}
+			if st == lib.Parked {
+				if _, site, _ := e.ctl.State(tid); flushSites[site] != 0 {
+					return st
+				}
+				e.ctl.StepThread(tid, 20*time.Millisecond)
+			}
+		}
+		return -1
+	}
+	// follow reports every flush site the thread parks at; it stops (thread still parked) at
+	// [until], or when the thread has finished (until = ""). resume: the thread is parked at a site
+	// that was already reported.
+	follow := func(tid, mt int, until string, resume bool) bool {
+		if resume {
+			e.ctl.StepThread(tid, 20*time.Millisecond)
+		}
+		deadline := time.Now().Add(stepTO)
+		for time.Now().Before(deadline) {
+			st := advance(tid)
+			if st == lib.Finished {
+				return until == ""
+			}
+			if st != lib.Parked {
+				return false
+			}
+			_, site, args := e.ctl.State(tid)
+			k := flushSites[site]
+			a := 0
+			if k == 5 && len(args) > 0 {
+				a = int(args[0])
+			}
+			if k != 7 {
+				ob(mt, k, a)
+			}
+			c.script = append(c.script, fmt.Sprintf("  t%d %s q=%d", mt, site, qlen()))
+			if site == until {
+				return true
+			}
+			e.ctl.StepThread(tid, 20*time.Millisecond)
+		}
+		return false
+	}
+	// one request as a thread: its Save/Delete step, then (immediate-write Save) its inline flush,
+	// step by step to the end
+	request := func(o opSpec, controlled bool) {
+		mt := mtid
+		mtid++
+		tid := e.tid()
+		var st string
+		var v int64
+		if o.Del {
+			c.bprogs = append(c.bprogs, fmt.Sprintf("(Pb 2 %d 0 0)", o.K))
+			e.ctl.Spawn(tid, func() { st = e.del(name, o.K) })
+		} else {
+			val++
+			v = val
+			c.bprogs = append(c.bprogs, fmt.Sprintf("(Pb 1 %d %d %d)", o.K, v, th))
+			e.ctl.Spawn(tid, func() { st = e.set(name, o.K, v) })
+		}
+		if !controlled {
+			e.runToEnd(tid, stepTO)
+			c.btrace = append(c.btrace, fmt.Sprintf("(Buffer.Ob %d 0 0 1000)", mt))
+			if !o.Del && th == 1 {
+				c.btrace = append(c.btrace, fmt.Sprintf("(Buffer.Ob %d 3 0 1000)", mt))
+			}
+		} else {
+			state := advance(tid)
+			if obj == nil {
+				obj = e.inst(name)
+			}
+			ob(mt, 0, 0)
+			if state == lib.Parked {
+				if !follow(tid, mt, "", false) {
+					c.hung = "request did not finish"
+				}
+				ob(mt, 4, 0)
+			} else if state != lib.Finished {
+				c.hung = "request did not settle"
+			} else if !o.Del && th == 1 {
+				ob(mt, 4, 0) // write-through found an empty queue
+			}
+		}
+		c.script = append(c.script, fmt.Sprintf("%s -> %s", o, st))
+		if o.Del && st == "DELETED" {
+			c.acks = append(c.acks, ack{true, o.K, 0})
+		}
+		if !o.Del && okSet(st) {
+			c.acks = append(c.acks, ack{false, o.K, v})
+		}
+	}
+	// the flusher whose window is used: the write-through of the first Save (wi = 0) or the write tick
+	if wi == 0 {
+		fmt0 := mtid
+		mtid++
+		ftid := e.tid()
+		val++
+		v := val
+		c.bprogs = append(c.bprogs, fmt.Sprintf("(Pb 1 0 %d 1)", v))
+		var st string
+		e.ctl.Spawn(ftid, func() { st = e.set(name, 0, v) })
+		if advance(ftid) != lib.Parked {
+			c.hung = "first save did not reach its write-through"
+			return c
+		}
+		obj = e.inst(name)
+		ob(fmt0, 0, 0)
+		if !follow(ftid, fmt0, park, false) {
+			c.hung = "first save did not reach " + park
+			return c
+		}
+		nacks := len(c.acks)
+		for _, o := range ops {
+			request(o, true)
+		}
+		if !follow(ftid, fmt0, "", true) {
+			c.hung = "first save did not finish"
+		}
+		ob(fmt0, 4, 0)
+		c.script = append(c.script, "set k0 (first) -> "+st)
+		if okSet(st) {
+			// it was saved before the operations inside its window although acknowledged after them
+			c.acks = append(c.acks[:nacks:nacks], append([]ack{{false, 0, v}}, c.acks[nacks:]...)...)
+		}
+	} else {
+		// the write tick of this swamp becomes a logical thread the first time it finds something to
+		// write (the rule is registered before the first Save, so no tick can slip through)
+		ftid := e.tid()
+		e.ctl.Adopt("swamp.flush.begin", func(a []int64) bool {
+			o := e.inst(name)
+			return o != nil && len(a) > 0 && verifhook.ID(o) == a[0]
+		}, ftid)
+		request(opSpec{false, 0}, true)
+		if obj == nil {
+			c.hung = "no instance"
+			return c
+		}
+		fmt0 := mtid
+		mtid++
+		c.bprogs = append(c.bprogs, "(Pb 3 0 0 0)")
+		if ok, _ := e.waitParked(ftid, 2500*time.Millisecond); !ok {
+			c.hung = "write tick did not arrive"
+			return c
+		}
+		if !follow(ftid, fmt0, park, false) {
+			c.hung = "write tick did not reach " + park
+			return c
+		}
+		for _, o := range ops {
+			request(o, true)
+		}
+		if park != "swamp.flush.wrote" && !follow(ftid, fmt0, "swamp.flush.wrote", true) {
+			c.hung = "write tick did not finish"
+		}
+		e.ctl.StepThread(ftid, 5*time.Millisecond)
+		time.Sleep(30 * time.Millisecond) // Sync
+		ob(fmt0, 4, 0)
+		// from here on the ticker goroutine runs freely (it stays a logical thread: release it whenever it parks)
+		go func() {
+			for i := 0; i < 1500; i++ {
+				e.ctl.StepThread(ftid, time.Millisecond)
+				time.Sleep(5 * time.Millisecond)
+			}
+		}()
+	}
+	for _, o := range post {
+		request(o, wi == 0)
+	}
+	// delete + re-create of a key inside the window (known finding: the old record object is
+	// written after the new one)
+	deleted := map[int]bool{}
+	for _, o := range ops {
+		if o.Del {
+			deleted[o.K] = true
+		} else if deleted[o.K] {
+			c.flags = 3
+		}
+	}
+	return c
+}
+
+// ---- teardown: a Set arrives while the previous instance is between cancel and callback ------------
+
+func (e *env) teardown(name string, wi int, closer string, site string) caseRec {
+	c := caseRec{kind: "teardown_" + closer, name: name, wi: wi, nontriv: true}
+	t0, tc, tw, t3 := e.tid(), e.tid(), e.tid(), e.tid()
+	var st string
+	e.ctl.Spawn(t0, func() { st = e.set(name, 0, 1) })
+	e.runToEnd(t0, stepTO)
+	c.script = append(c.script, "set k0=1 -> "+st)
+	c.acks = append(c.acks, ack{false, 0, 1})
+	id := e.instID(name)
+	var dst string
+	switch closer {
+	case "destroy":
+		e.ctl.Spawn(tc, func() { e.destroy(name) })
+		c.acks = append(c.acks, ack{true, 0, 0})
+	case "autodestroy":
+		e.ctl.Spawn(tc, func() { dst = e.del(name, 0) })
+		c.acks = append(c.acks, ack{true, 0, 0})
+	case "idleclose":
+		e.ctl.Adopt("swamp.idle.read", func(a []int64) bool { return len(a) > 0 && a[0] == id }, tc)
+	}
+	parked := false
+	if closer == "idleclose" {
+		deadline := time.Now().Add(8 * time.Second)
+		for time.Now().Before(deadline) && !parked {
+			if s, sname, _ := e.ctl.State(tc); s == lib.Parked {
+				if sname == site {
+					parked = true
+					break
+				}
+				e.ctl.StepThread(tc, 5*time.Millisecond)
+			}
+			time.Sleep(2 * time.Millisecond)
+		}
+	} else {
+		parked = e.runUntil(tc, site, stepTO)
+	}
+	c.script = append(c.script, fmt.Sprintf("%s parked at %s=%v", closer, site, parked))
+	var sst string
+	e.ctl.Spawn(tw, func() { sst = e.set(name, 1, 2) })
+	// give the request time to get through if it (wrongly) can
+	early := false
+	deadline := time.Now().Add(150 * time.Millisecond)
+	for time.Now().Before(deadline) {
+		s := e.ctl.WaitThread(tw, 5*time.Millisecond)
+		if s == lib.Parked {
+			e.ctl.StepThread(tw, 5*time.Millisecond)
+		}
+		if s == lib.Finished {
+			early = true
+			break
+		}
+	}
+	c.script = append(c.script, fmt.Sprintf("set k1=2 finished while the teardown is parked=%v", early))
+	if closer == "idleclose" {
+		// the adopted listener goroutine never "finishes": one step takes it past the callback. (Do
+		// not wait here: the request below must not sit between SummonSwamp and BeginVigil of the NEW
+		// instance long enough for that instance to idle-close - that is the known race (ii).)
+		e.ctl.StepThread(tc, 20*time.Millisecond)
+	} else {
+		e.runToEnd(tc, 3*time.Second)
+	}
+	c.script = append(c.script, "teardown released "+dst)
+	fin := e.runToEnd(tw, 4*time.Second)
+	c.script = append(c.script, fmt.Sprintf("set k1=2 finished=%v -> %s", fin, sst))
+	if fin && okSet(sst) {
+		c.acks = append(c.acks, ack{false, 1, 2})
+	}
+	if !fin {
+		c.hung = "set during teardown did not finish"
+	}
+	var s3 string
+	e.ctl.Spawn(t3, func() { s3 = e.set(name, 2, 3) })
+	if e.runToEnd(t3, 4*time.Second) && okSet(s3) {
+		c.acks = append(c.acks, ack{false, 2, 3})
+	}
+	c.script = append(c.script, "set k2=3 -> "+s3)
+	return c
+}
+
+// ---- serial and stress ---------------------------------------------------------------------------
+
 func (e *env) serial(name string, wi int, rng *common.Rng, idleGap bool) caseRec {
 	c := caseRec{kind: "serial", name: name, wi: wi}
 	if idleGap {
 		c.kind = "serial_idle"
 	}
-	ctx := context.Background()
 	n := 6 + rng.Intn(9)
+	var val int64
 	for j := 0; j < n; j++ {
 		k := rng.Intn(6)
 		if rng.Chance(65) {
-			st, err := e.set(ctx, name, k)
-			c.script = append(c.script, fmt.Sprintf("set k%d -> %s", k, st))
-			if err == nil && (st == "NEW" || st == "UPDATED" || st == "NOTHING_CHANGED") {
-				c.acks = append(c.acks, ack{false, k})
+			val++
+			st := e.set(name, k, val)
+			c.script = append(c.script, fmt.Sprintf("set k%d=%d -> %s", k, val, st))
+			if okSet(st) {
+				c.acks = append(c.acks, ack{false, k, val})
 			}
 		} else {
-			st, err := e.del(ctx, name, k)
+			st := e.del(name, k)
 			c.script = append(c.script, fmt.Sprintf("delete k%d -> %s", k, st))
-			if err == nil && st == "DELETED" {
-				c.acks = append(c.acks, ack{true, k})
+			if st == "DELETED" {
+				c.acks = append(c.acks, ack{true, k, 0})
 				c.nontriv = true
 			}
 		}
 		if idleGap && j == n/2 {
-			time.Sleep(3500 * time.Millisecond) // the idle listener closes the swamp here
+			time.Sleep(3500 * time.Millisecond)
 			c.script = append(c.script, fmt.Sprintf("idle 3.5 s, instance in map afterwards: %v", e.instID(name) != 0))
 			c.nontriv = true
 		}
@@ -260,54 +612,127 @@ func (e *env) serial(name string, wi int, rng *common.Rng, idleGap bool) caseRec
 	return c
 }
 
-// stress: writers (each owns its keys) on one swamp with 1 s idle close and 1 s write interval;
-// an anchor key is never deleted, so the swamp never becomes empty (no auto-destroy here: that
-// race is covered by the forced witness, a free-running hit could not be classified)
-func (e *env) stress(name string, rng *common.Rng, dur time.Duration) caseRec {
+type opRec struct {
+	a          ack
+	gid        int64
+	start, end int64 // sequence numbers of the marker events
+	lost       bool
+}
+
+// stress: 4 writers per swamp (each owns its keys, so the per-key order is the program order),
+// deletes may empty the swamp (auto-destroy), pauses let it idle-close. Returns the case and the
+// per-operation records for the classification of lost writes.
+func (e *env) stress(name string, rng *common.Rng, dur time.Duration, opSeq *int64) (caseRec, []*opRec) {
 	c := caseRec{kind: "stress", name: name, wi: 1, nontriv: true}
-	ctx := context.Background()
-	e.set(ctx, name, 0)
-	c.acks = append(c.acks, ack{false, 0})
 	var mu sync.Mutex
 	var wg sync.WaitGroup
+	var all []*opRec
 	stop := time.Now().Add(dur)
 	for g := 0; g < 4; g++ {
 		wg.Add(1)
 		r := rng.Fork(fmt.Sprintf("g%d", g))
 		go func(g int) {
 			defer wg.Done()
-			var mine []ack
+			gid := verifhook.GoID()
+			var mine []*opRec
+			var val int64 = int64(g) * 1000000
 			for time.Now().Before(stop) {
-				k := 1 + g*2 + r.Intn(2)
-				if r.Chance(70) {
-					if st, err := e.set(ctx, name, k); err == nil && st != "" {
-						mine = append(mine, ack{false, k})
+				k := g*2 + r.Intn(2)
+				id := atomic.AddInt64(opSeq, 1)
+				rec := &opRec{gid: gid}
+				verifhook.Point("c16.op.start", id)
+				if r.Chance(75) {
+					val++
+					if st := e.set(name, k, val); okSet(st) {
+						rec.a = ack{false, k, val}
+						mine = append(mine, rec)
 					}
 				} else {
-					if st, err := e.del(ctx, name, k); err == nil && st == "DELETED" {
-						mine = append(mine, ack{true, k})
+					if st := e.del(name, k); st == "DELETED" {
+						rec.a = ack{true, k, 0}
+						mine = append(mine, rec)
 					}
 				}
-				if r.Chance(8) {
-					time.Sleep(time.Duration(2200+r.Intn(600)) * time.Millisecond) // let it idle-close
+				verifhook.Point("c16.op.end", id)
+				rec.start = id
+				if r.Chance(6) {
+					time.Sleep(time.Duration(2200+r.Intn(600)) * time.Millisecond)
 				} else {
-					time.Sleep(time.Duration(r.Intn(40)) * time.Millisecond)
+					time.Sleep(time.Duration(r.Intn(30)) * time.Millisecond)
 				}
 			}
 			mu.Lock()
-			c.acks = append(c.acks, mine...) // keys are owned per goroutine: per-key order is preserved
+			all = append(all, mine...)
 			mu.Unlock()
 		}(g)
 	}
 	wg.Wait()
+	for _, r := range all {
+		c.acks = append(c.acks, r.a)
+	}
 	c.script = append(c.script, fmt.Sprintf("%d acknowledged operations by 4 writers", len(c.acks)))
-	return c
+	return c, all
+}
+
+// classify decides from the hook log which lifecycle decision overlapped a lost write:
+// 1 = an auto-destroy decision on the instance the write went to was pending during the request,
+// 2 = the idle listener closed that instance between the request's SummonSwamp and its end,
+// 0 = neither.
+func classify(evs []verifhook.Event, rec *opRec) int {
+	// locate the request: markers of its goroutine
+	s, t := -1, -1
+	for i, ev := range evs {
+		if ev.Gid == rec.gid && len(ev.Args) > 0 && ev.Args[0] == rec.start {
+			if ev.Site == "c16.op.start" {
+				s = i
+			}
+			if ev.Site == "c16.op.end" {
+				t = i
+			}
+		}
+	}
+	if s < 0 || t < 0 {
+		return 0
+	}
+	var inst int64
+	summoned := -1
+	for i := s; i <= t; i++ {
+		ev := evs[i]
+		if ev.Gid == rec.gid && ev.Site == "gateway.set.summoned" && len(ev.Args) > 0 {
+			inst, summoned = ev.Args[0], i
+		}
+	}
+	if inst == 0 {
+		return 0
+	}
+	// auto-destroy decision on inst before the end of the request whose teardown ended after its start
+	for i := 0; i <= t; i++ {
+		if evs[i].Site == "swamp.autodestroy" && len(evs[i].Args) > 0 && evs[i].Args[0] == inst {
+			for j := i; j < len(evs); j++ {
+				if evs[j].Site == "swamp.callback.done" && len(evs[j].Args) > 0 && evs[j].Args[0] == inst {
+					if j >= s {
+						return 1
+					}
+					break
+				}
+			}
+		}
+	}
+	// idle close: the close gate of inst lies between the request's summon and its end, and the
+	// listener's read came before the summon
+	for i := summoned; i <= t; i++ {
+		if evs[i].Site == "swamp.idle.close" && len(evs[i].Args) > 0 && evs[i].Args[0] == inst {
+			return 2
+		}
+	}
+	return 0
 }
 
 func main() {
 	a := common.ParseArgs()
-	run := common.NewRun(a, "C16", "HV.Conc.Lifecycle")
-	run.Meta.Rule = "a case = one persistent V2 swamp of a real in-process engine driven through the gateway: the acknowledged set/delete operations, and the key set found after GracefulStop + a fresh engine on the same root. Forced witnesses: the two refutation schedules of Conc/Lifecycle.v forced through the hooks swamp.autodestroy / swamp.idle.read / gateway.set.summoned in immediate-write and 1 s-interval mode (the model predicts the reloaded set). Serial: random request sequences without/with an idle close in the middle. Stress: 4 writers per swamp with idle closes. Non-trivial = a forced race, an acknowledged delete, or an idle close happened"
+	run := common.NewRun(a, "C16", "HV.Conc.LifecycleCheck")
+	run.Shard = 60
+	run.Meta.Rule = "a case = one persistent V2 swamp of a real in-process engine driven through the gateway (every write a fresh value): the acknowledged operations and the key->value map found after GracefulStop + a fresh engine. Forced: the two Lifecycle.v witnesses; flush-window schedules (operations acknowledged while a write tick / write-through is parked after collect, dequeue or write; hook events and queue length replayed by Buffer.v, which also predicts the reloaded content); teardown schedules (a Set while Destroy / auto-destroy / idle Close is parked between cancel and callback). Serial: random request sequences without/with an idle close. Stress: 4 writers per swamp with deletes, auto-destroys and idle closes, lost writes classified from the hook log. Non-trivial = forced schedule, acknowledged delete, idle close, or stress"
 	rng := common.NewRng(a.Seed, "C16")
 	rig.Quiet()
 	root, _ := os.MkdirTemp("", "c16")
@@ -321,81 +746,173 @@ func main() {
 	}
 	reg(srv)
 	e := &env{srv: srv}
-	var cases []caseRec
-	model := map[string]int{}
-	w := e.witnessAutoDestroy("c16a/w/i0", 0)
-	model[w.name] = 1
-	cases = append(cases, w)
-	w = e.witnessAutoDestroy("c16b/w/i1", 1)
-	model[w.name] = 2
-	cases = append(cases, w)
-	w = e.witnessIdleClose("c16c/w/ii0", 0)
-	if w.flags == 2 {
-		model[w.name] = 3
+	pat := func(wi int, idle bool) string {
+		switch {
+		case !idle && wi == 0:
+			return "c16a"
+		case !idle:
+			return "c16b"
+		case wi == 0:
+			return "c16c"
+		}
+		return "c16d"
 	}
-	cases = append(cases, w)
-	w = e.witnessIdleClose("c16d/w/ii1", 1)
-	if w.flags == 2 {
-		model[w.name] = 4
+
+	// ---- phase 1: forced scenarios, all in parallel under one controller
+	e.ctl = lib.New()
+	for _, s := range []string{"swamp.autodestroy", "swamp.idle.read", "gateway.set.summoned", "swamp.flush.begin",
+		"chronicler.write.begin", "swamp.flush.wrote", "swamp.destroy.cancelled", "swamp.callback"} {
+		e.ctl.Park[s] = true
 	}
-	cases = append(cases, w)
+	e.ctl.Keep = func(site string) bool { return !strings.HasPrefix(site, "summon.") }
+	e.ctl.Install()
+	var scen []func() caseRec
+	for wi := 0; wi <= 1; wi++ {
+		wi := wi
+		scen = append(scen, func() caseRec { return e.witnessAutoDestroy(fmt.Sprintf("%s/w/i%d", pat(wi, false), wi), wi) })
+		scen = append(scen, func() caseRec { return e.witnessIdleClose(fmt.Sprintf("%s/w/ii%d", pat(wi, true), wi), wi) })
+	}
+	opsets := [][]opSpec{
+		{{false, 0}},                         // update of the key that is being flushed
+		{{false, 1}},                         // another key
+		{{false, 0}, {false, 0}},             // two updates
+		{{false, 1}, {true, 0}},              // delete of the key that is being flushed
+		{{false, 1}, {true, 1}},              // insert and delete inside the window
+		{{false, 0}, {false, 1}, {false, 0}}, // interleaved
+		{{false, 1}, {true, 0}, {false, 0}},  // delete and re-create inside the window
+	}
+	posts := [][]opSpec{nil, {{false, 2}}, {{false, 0}}}
+	n := 0
+	for wi := 0; wi <= 1; wi++ {
+		for _, park := range []string{"swamp.flush.begin", "chronicler.write.begin", "swamp.flush.wrote"} {
+			for oi, ops := range opsets {
+				_ = oi
+				wi, park, ops, post := wi, park, ops, posts[(n)%len(posts)]
+				nm := fmt.Sprintf("%s/f/n%d", pat(wi, false), n)
+				n++
+				scen = append(scen, func() caseRec { return e.flushWindow(nm, wi, park, ops, post) })
+			}
+		}
+	}
+	for wi := 0; wi <= 1; wi++ {
+		for _, cl := range []string{"destroy", "autodestroy"} {
+			for _, site := range []string{"swamp.destroy.cancelled", "swamp.callback"} {
+				wi, cl, site := wi, cl, site
+				nm := fmt.Sprintf("%s/t/n%d", pat(wi, false), n)
+				n++
+				scen = append(scen, func() caseRec { return e.teardown(nm, wi, cl, site) })
+			}
+		}
+		wi := wi
+		nm := fmt.Sprintf("%s/t/n%d", pat(wi, true), n)
+		n++
+		scen = append(scen, func() caseRec { return e.teardown(nm, wi, "idleclose", "swamp.callback") })
+	}
+	forced := make([]caseRec, len(scen))
+	common.Parallel(len(scen), len(scen), func(i int) { forced[i] = scen[i]() })
+	e.ctl.Uninstall()
+	time.Sleep(50 * time.Millisecond)
+
+	// ---- phase 2: serial, idle-serial and stress, free running
 	nser, nidle, nstress, sdur := 160, 24, 6, 7*time.Second
 	if a.Tier == "thorough" {
 		nser, nidle, nstress, sdur = 1200, 120, 16, 60*time.Second
 	}
-	ser := make([]caseRec, nser+nidle+nstress)
-	rngs := make([]*common.Rng, len(ser))
+	free := make([]caseRec, nser+nidle+nstress)
+	recs := make([][]*opRec, len(free))
+	rngs := make([]*common.Rng, len(free))
 	for i := range rngs {
 		rngs[i] = rng.Fork(fmt.Sprintf("c%d", i))
 	}
-	common.Parallel(len(ser), 32, func(i int) {
+	var opSeq int64
+	verifhook.StartLog()
+	common.Parallel(len(free), 40, func(i int) {
 		switch {
 		case i < nser:
-			pat, wi := "c16a", 0
-			if i%2 == 1 {
-				pat, wi = "c16b", 1
-			}
-			ser[i] = e.serial(fmt.Sprintf("%s/s/n%d", pat, i), wi, rngs[i], false)
+			free[i] = e.serial(fmt.Sprintf("%s/s/n%d", pat(i%2, false), i), i%2, rngs[i], false)
 		case i < nser+nidle:
-			pat, wi := "c16c", 0
-			if i%2 == 1 {
-				pat, wi = "c16d", 1
-			}
-			ser[i] = e.serial(fmt.Sprintf("%s/i/n%d", pat, i), wi, rngs[i], true)
+			free[i] = e.serial(fmt.Sprintf("%s/i/n%d", pat(i%2, true), i), i%2, rngs[i], true)
 		default:
-			ser[i] = e.stress(fmt.Sprintf("c16d/x/n%d", i), rngs[i], sdur)
+			free[i], recs[i] = e.stress(fmt.Sprintf("c16d/x/n%d", i), rngs[i], sdur, &opSeq)
 		}
 	})
-	cases = append(cases, ser...)
-	// graceful stop, fresh engine on the same root, compare
+	evs := verifhook.StopLog()
+
+	// ---- graceful stop, fresh engine on the same root, compare
 	e.srv = srv.Restart()
 	reg(e.srv)
-	for _, c := range cases {
-		got := e.reload(c.name, 12)
+	emit := func(c caseRec, got map[int]int64) {
 		as := make([]string, len(c.acks))
 		for i, x := range c.acks {
-			wflag := 1
+			w := 1
 			if x.Del {
-				wflag = 0
+				w = 0
 			}
-			as[i] = fmt.Sprintf("(Pa %d %d)", wflag, x.Key)
+			as[i] = fmt.Sprintf("(Pa %d %d %d)", w, x.Key, x.Val)
 		}
-		gs := make([]string, len(got))
-		for i, k := range got {
-			gs[i] = fmt.Sprintf("%d", k)
+		var ks []int
+		for k := range got {
+			ks = append(ks, k)
 		}
-		term := fmt.Sprintf("(Cc %s %s %d %d)", common.List(as), common.List(gs), c.flags, model[c.name])
-		d := map[string]interface{}{"kind": c.kind, "swamp": c.name, "write_interval_s": c.wi, "acks": fmt.Sprint(c.acks),
-			"reloaded": got, "forced_race": c.flags}
-		if len(c.script) <= 40 {
+		sort.Ints(ks)
+		gs := make([]string, len(ks))
+		for i, k := range ks {
+			gs[i] = fmt.Sprintf("(Pr %d %d)", k, got[k])
+		}
+		bp, bt := c.bprogs, c.btrace
+		if c.hung != "" {
+			bp, bt = nil, nil
+		}
+		term := fmt.Sprintf("(Cc %s %s %d %d %s %s)", common.List(as), common.List(gs), c.flags, c.model, common.List(bp), common.List(bt))
+		d := map[string]interface{}{"kind": c.kind, "swamp": c.name, "write_interval_s": c.wi, "reloaded": fmt.Sprint(got), "forced_race": c.flags}
+		if len(c.acks) <= 40 {
+			d["acks"] = fmt.Sprint(c.acks)
+		}
+		if len(c.script) <= 60 {
 			d["script"] = c.script
 		}
-		run.Add(term, d, c.nontriv)
+		idx := run.Add(term, d, c.nontriv)
 		run.Hist(c.kind)
 		run.HistN("acked_ops", len(c.acks))
+		if len(c.btrace) > 0 {
+			run.HistN("buffer_trace_events", len(c.btrace))
+		}
+		if c.hung != "" {
+			run.Violate(idx, "forced schedule", "forced_case_hung", c.hung)
+		}
 		if strings.HasPrefix(c.kind, "witness") && c.flags == 0 {
 			run.Hist("witness_not_forced")
 		}
+	}
+	for _, c := range forced {
+		emit(c, e.reload(c.name))
+	}
+	for i, c := range free {
+		got := e.reload(c.name)
+		if c.kind == "stress" {
+			// classify lost writes: last acknowledged operation per key
+			last := map[int]*opRec{}
+			for _, r := range recs[i] {
+				last[r.a.Key] = r
+			}
+			cls := -1
+			for k, r := range last {
+				if r.a.Del {
+					continue
+				}
+				if v, ok := got[k]; !ok || v != r.a.Val {
+					cl := classify(evs, r)
+					run.Hist(fmt.Sprintf("stress_lost_class_%d", cl))
+					if cls == -1 || cl == 0 {
+						cls = cl
+					}
+				}
+			}
+			if cls > 0 {
+				c.flags = cls
+			}
+		}
+		emit(c, got)
 	}
 	e.srv.Stop()
 	run.Meta.Traces = run.Meta.Evaluations
